@@ -8,19 +8,22 @@ from . import life
 from . import sqe
 
 EXPLANATION = (
-    "Decides: (R1) AsyncFd implements neither Clone nor Copy (facts; use-after-close/move witnesses in the "
-    "thorough tier); (R2) every AsyncFd::from_raw call wraps a descriptor whose origin is the kernel result of the "
-    "operation, a resources component, a libc call in the same function, IntoRawFd::into_raw_fd, a parameter of an "
-    "unsafe fn or a constant, and no origin is wrapped twice; (R3) the kind used to encode the request in "
-    "fill_submission has the same origin as the kind given to from_raw in the sibling map_ok/map_next; (R4) "
-    "<AsyncFd as Drop>::drop: on the Ok edge of add no synchronous close, on the Err edge exactly one of "
-    "libc::close (File) / close_direct_fd (Direct); the queued request carries CLOSE_USER_DATA and skips the success "
-    "CQE; (R5) close encodings vs ABI: File => sqe.fd = fd, Direct => file_index = fd+1 with sqe.fd untouched, "
-    "files_update.offset = fd with value -1, fd() masks bit 31, from_raw sets it iff Direct, kind() reads the sign; "
-    "(R6) AsyncFd::close moves self into ManuallyDrop, reads sq once and passes (fd, kind) to Close; (R7) standard "
-    "stream handles are wrapped in ManuallyDrop and their Drop only drops the queue handle; (R8) operations that "
-    "produce descriptors must look at the completion result when the operation was abandoned (necessary for closing "
-    "it) — known finding K1. The process descriptor table at run time is not decided."
+    'Decides: (R1) AsyncFd implements neither Clone nor Copy (facts; use-after-close/move witnesses in the '
+    'thorough tier); (R2) every AsyncFd::from_raw call wraps a descriptor whose origin is the kernel result of '
+    'the operation, a resources component, a libc call in the same function, IntoRawFd::into_raw_fd, a '
+    'parameter of an unsafe fn or a constant, and no origin is wrapped twice; (R3) the kind used to encode the '
+    'request in fill_submission has the same origin as the kind given to from_raw in the sibling '
+    'map_ok/map_next; (R4) <AsyncFd as Drop>::drop: every path queues a close or closes synchronously (no '
+    'early return); on the Ok edge of add no synchronous close, on the Err edge exactly one of libc::close '
+    '(File) / close_direct_fd (Direct); the queued request carries CLOSE_USER_DATA and skips the success CQE; '
+    '(R5) close encodings vs ABI: File => sqe.fd = fd, Direct => file_index = fd+1 with sqe.fd untouched, '
+    'files_update.offset = fd with value -1, fd() masks bit 31, from_raw sets it iff Direct, kind() reads the '
+    'sign; (R6) AsyncFd::close moves self into ManuallyDrop, reads sq once and passes (fd, kind) to Close; '
+    '(R7) standard stream handles are wrapped in ManuallyDrop and their Drop only drops the queue handle; (R8) '
+    'operations that produce descriptors must look at the completion result when the operation was abandoned '
+    '(necessary for closing it) — known finding K1; (R9) a Close future abandoned before completion must leave '
+    'the descriptor owned by something that closes it — known finding K7. The process descriptor table at run '
+    'time is not decided.'
 )
 NOT_DECIDED = "the run-time descriptor table; kernel semantics of CLOSE"
 ASSUMPTIONS = ["a CLOSE request queued to a live ring is eventually submitted (C12)"]
